@@ -119,6 +119,36 @@ def run(ctx):
         ctx.fail(f"LOAD-ALIAS: only {n3} callers of load_std_type found (confirmed: 10)")
     rule_apply_always(ctx)
 
+    from rules import C24
+    RS = "STD-SIBLING"
+    ctx.rule(RS, "a standard-type parameter is applied by the single and by the batch creator alike (sibling agreement of the consumed "
+                 "key sets, shared with C24): a key dropped from one of them is a type parameter that is silently not applied there")
+    known = {k["key"].split("::", 1)[1] for k in []}
+    C24.rule_std_keys_siblings(ctx, RS)
+    rule_fuse_curves(ctx)
+
+
+def rule_fuse_curves(ctx):
+    """Fuse.__init__: each curve of a fuse standard type is a pair x_<k> / t_<k>"""
+    R = "FUSE-CURVE"
+    ctx.rule(R, "Fuse.__init__ builds the characteristic from x_<k> and t_<k> of the same curve k, in the branch guarded by t_<k> != 0")
+    fi = ctx.repo.func("pandapower.protection.protection_devices.fuse:Fuse.__init__")
+    n = 0
+    for node in ast.walk(fi.node):
+        if isinstance(node, ast.If):
+            for st in node.body:
+                if isinstance(st, ast.Expr) and isinstance(st.value, ast.Call) and ast.unparse(st.value.func) == "self.create_characteristic":
+                    keys = [a.slice.value for a in st.value.args if isinstance(a, ast.Subscript) and isinstance(a.slice, ast.Constant)]
+                    guard = [c.slice.value for c in ast.walk(node.test) if isinstance(c, ast.Subscript) and isinstance(c.slice, ast.Constant)]
+                    n += 1
+                    sfx = {k.split("_", 1)[1] for k in keys}
+                    ok = len(keys) == 2 and keys[0].startswith("x_") and keys[1].startswith("t_") and len(sfx) == 1 and \
+                        all(g.split("_", 1)[1] in sfx for g in guard)
+                    ctx.ob(R, f"pandapower.protection.protection_devices.fuse::Fuse.__init__::curve:{'/'.join(keys)}", ok,
+                           f"curve from {keys} under guard on {guard}", fi.loc(st))
+    if n < 3:
+        ctx.fail(f"Fuse.__init__: only {n} create_characteristic calls found (confirmed: 3)")
+
 
 def rule_apply_always(ctx):
     """three more structural clauses of 'applied completely'"""
